@@ -2,46 +2,65 @@ import vlib
 
 class P(vlib.Prop):
     id = "C17"
-    watch = ("pkg/apk/fs/memfs.go", "pkg/tarfs/fs.go", "pkg/apk/fs/rwosfs.go")
-    rule = ("one stage: a corpus of hand-picked operation sequences (replays of the two repaired panics, one scenario per known corner, "
+    watch = ("pkg/apk/fs/memfs.go", "pkg/tarfs/fs.go", "pkg/apk/fs/rwosfs.go", "pkg/apk/fs/sub.go")
+    rule = ("stage sequences: a corpus of hand-picked operation sequences (replays of the two repaired panics, one scenario per known corner, "
             "symlink chains of 39/40/41 links, 39/40/41 sequential absolute links, lexical '..' targets, the witnesses of the syntactic class "
-            "(links through links, link budget per lookup, tarfs MkdirAll('.')), six scenarios of what dirFS decides itself (overlay/host drift, "
-            "Create('.'), climbing and rooted Link names, link(2) on a symlink, Stat mixing, un-normalised non-climbing names), hard links, handles "
-            "that outlive their name, read/write/seek patterns around EOF), then random sequences of 5..40 operations over 6 names and 3 directory levels "
-            "(relative / absolute / looping / '..' link targets; a quarter with un-normalised paths; a quarter 'tame' = safe on a host directory) "
-            "run through the public FullFS interface of apkfs.NewMemFS(), tarfs.New() and, for the tame ones, apkfs.DirFS(tmpdir). "
+            "(links through links, link budget per lookup, tarfs MkdirAll('.')), scenarios of what dirFS decides itself (overlay/host drift, "
+            "Create('.'), climbing and rooted Link names, link(2) on a symlink, Stat mixing, un-normalised non-climbing names, ROOTED names, Mknod/Readnod "
+            "with the Mknod-on-an-existing-name replay), hard links, handles that outlive their name, read/write/seek patterns around EOF, one scenario that "
+            "shows every operation kind with every result class its model can produce), then random sequences of 5..40 operations over 6 names and 3 directory "
+            "levels (relative / absolute / looping / '..' link targets; a quarter with un-normalised paths; a quarter 'tame' = safe on a host directory, rooted "
+            "names and Mknod/Readnod included) run through the public FullFS interface of apkfs.NewMemFS(), tarfs.New() and, for the tame ones, apkfs.DirFS(tmpdir); "
+            "subfs cases: sequences on an in-memory filesystem in which most operations go through &apkfs.SubFS{FS, Root} (seven scenarios: joined names, '..' escapes, "
+            "unjoined Symlink/Link, a rooted root, links inside, a missing root, a root that is a file; then random ones with names that try to leave the root). "
+            "stage tarentry: WriteHeader calls (regular files of one package origin, the opener's files being the harness's) mixed with FullFS operations on the real tarfs "
+            "(14 scenarios: reads before any write, truncation, overwrite, buffering on write intent, the read-only-handle corner, hard link, remove, existing names, append, "
+            "empty entry, through links, metadata; then random ones). "
             "Every step's return value and error class is recorded; in Coq every step is compared with the model of its backend (memFS / tarfs model; "
-            "for DirFS the overlay+host model of rwosfs.go, on every step, inside the envelope or not) and with the reference step. "
-            "A case is one sequence on one backend; distinct = distinct case terms; "
-            "a case is trivial only if it has no operations.")
+            "for DirFS the overlay+host model of rwosfs.go, on every step, inside the envelope or not; for subfs the parent's model on the joined operation; for tarentry "
+            "Model/TarEntry.v) and with the reference step (subfs: of the operation at root/name; tarentry: on the plain filesystem the state stands for). "
+            "A case is one sequence on one backend; distinct = distinct case terms; a case is trivial only if it has no operations. The run prints the distribution of "
+            "operations x result classes (per target), of path shapes and sequence lengths, and the list of modelled (operation, class) pairs it did not exercise (empty).")
     stages = (
         dict(name="sequences", cmd="c17", args=lambda t, s: []),
         dict(name="tarentry", cmd="c17", args=lambda t, s: ["-mode", "tarentry"]),
     )
     assumptions = (
         "permission arguments carry no file-type bits (the model keeps kind and permission bits apart)",
-        "the tar-entry side channel of pkg/tarfs (WriteHeader, tar-backed reads, hardlinks map) is outside the operation alphabet",
+        "the tar-entry side channel of pkg/tarfs is modelled for regular files (WriteHeader with a checksum record, one package origin, no replaces; lazy reads through "
+        "an opener whose files are the harness's and read like memFile); TypeDir/TypeSymlink/TypeLink headers, the hardlinks map and conflicts between packages are C06/C07's",
+        "SubFS: the view is built as &SubFS{FS, Root} with a non-empty root; its constructors (memFS.Sub, apkfs.Sub), Open/OpenReaderAt and SubFS.Sub are not exercised",
         "one goroutine: the per-directory mutexes are not modelled",
         "the modification time of a node that was never Chtimes'd, link counts and node names are not observed",
         "the directory-backed filesystem: case-sensitive host; the host side of its model is the reference filesystem (plus four recorded Linux/Go choices: "
-        "zero-length reads, link(2) order and no-follow, EEXIST at '.', rmdir(base)); host permission checks and umask are not modelled (the harness runs as root, observed modes come from the overlay)",
+        "zero-length reads, link(2) order and no-follow, EEXIST at '.', rmdir(base)); host permission checks and umask are not modelled (the harness runs as root, observed modes come from the overlay); "
+        "Mknod is issued with a mode without type bits, so mknod(2) makes a regular file on the host (no privilege needed); the state after os.Remove('.') removed an empty base directory is not modelled "
+        "(the comparison of that sequence ends there)",
     )
     level_text = ("The reference filesystem (Spec/FsSpec.v) satisfies the laws of the property for every state and operation; the executable model of "
                   "memfs.go and tarfs/fs.go takes exactly the reference's step on every state and operation inside the stated envelope E, hence on every "
                   "operation sequence that stays inside it; every corner outside E is refuted with a concrete witness. Every state the code can reach (any "
                   "sequence, corners included) is well-formed, so read-after-write and metadata-last-set hold there without side conditions. The semantic "
                   "link-agreement clauses of E follow from a syntactic class: link targets relative, of ordinary names (then getNode's nesting limit IS the "
-                  "reference's total budget, for every limit) plus a weight certificate for the paths through openFile/MkdirAll; the class is closed under the "
-                  "code's steps. The model of the directory-backed filesystem (overlay memFS + host) takes the reference's step on synchronised states for "
-                  "normalised relative names inside the overlay's envelope, and drifts apart outside (witness). The models are tied to the code by per-step "
-                  "differential comparison of every return value and error class on all three filesystems, and the reference step is evaluated next to every observed step.")
+                  "reference's total budget, for every limit) plus a weight on names; tameness AND the weight certificate are invariants of the code's steps "
+                  "(a condition on each Symlink operation alone), so for EVERY finite sequence of operations of the class, with no premise on intermediate states, "
+                  "the link clause never fails first and the run is the reference's run or first departs at another recorded corner (c17_refines_sequences). "
+                  "The model of the directory-backed filesystem (overlay memFS + host) takes the reference's step on synchronised states for normalised names, "
+                  "ROOTED ones included, Mknod/Readnod included, inside the overlay's envelope or — for tame, weight-respecting sequences — inside its syntactic "
+                  "substitute; it drifts apart outside (witness). The sub-filesystem view is the parent at root/name for names without '..' and lexically confined to "
+                  "its root there; '..' escapes and Symlink/Link are not joined (both refuted, replayed, recorded). The tar-entry channel of tarfs extends the tree "
+                  "model conservatively; a package's file under a fresh root name reads and stats as the entry's bytes; a read-only handle of a not-yet-loaded file is the "
+                  "opener's file (refuted: stale after a write, no Seek). The models are tied to the code by per-step differential comparison of every return value and "
+                  "error class on all five kinds of filesystem, and the reference step is evaluated next to every observed step.")
     level_note = ("trusted: Coq kernel, goextract, Go harness/printer; modelled not verified: the Go text of memfs.go / tarfs/fs.go (hand-written model, "
                   "differentially tested), Go maps, filepath.Clean/Dir/Base/Join (transcribed); rwosfs.go (hand-written model Model/DirFS.v, differentially tested on a real temp directory; "
-                  "its host side is the reference filesystem, not the kernel)")
+                  "its host side is the reference filesystem, not the kernel); sub.go (Model/SubFS.v: filepath.Join transcribed, differentially tested); the tar-entry channel "
+                  "(Model/TarEntry.v, differentially tested against tarfs with the harness's opener)")
     design_ref = "DESIGN.md 7 C17, Appendix A.2"
     modelled_not_verified = ("memFS/tarfs methods and memFile are modelled by hand (Model/MemFS.v); maxLinks and the two comparisons against it are regenerated "
-                             "from the source; dirFS (rwosfs.go) is modelled by hand for a case-sensitive host (Model/DirFS.v); its case-insensitive mode, Open/sanitizePath, "
-                             "SubFS (sub.go) and the host kernel itself are not modelled")
+                             "from the source; dirFS (rwosfs.go) is modelled by hand for a case-sensitive host (Model/DirFS.v); its case-insensitive mode, Open/sanitizePath "
+                             "and the host kernel itself are not modelled; SubFS (sub.go) and the tar-entry channel of tarfs (regular files) are modelled by hand "
+                             "(Model/SubFS.v, Model/TarEntry.v); the SubFS constructors, Open/OpenReaderAt, WriteHeader for directories/symlinks/hard links are not")
 
     def post_replay(self, rp):
         """cut the failing sequence of a violation replay down (harness: c17 -shrink); best effort"""
